@@ -168,6 +168,11 @@ def _expand_attrpath_binding(binding: Binding) -> list[Binding]:
             if item.nested:
                 if not isinstance(item.value, AttributeSet):
                     raise ValueError(f"Attrpath binding missing attrset: {item.name}")
+                if not item.value.values:
+                    # Emptied intermediate node: keep it visible as `a.c = { };`.
+                    full_name = ".".join(prefix + [item.name])
+                    flattened.append(item.model_copy(update={"name": full_name}))
+                    continue
                 walk(prefix + [item.name], item.value)
                 continue
             full_name = ".".join(prefix + [item.name])
